@@ -24,6 +24,7 @@ class Ctx:
         self.pid = pid
         self.tier = tier
         self.seed = seed
+        self.config = os.environ.get("AMVERIF_CONFIG", "dev")
         self.t0 = time.time()
         self.obs = []          # obligations
         self.floors = []
@@ -39,12 +40,13 @@ class Ctx:
         self.not_decided = ""
 
     # ---- facts -----------------------------------------------------------------------------
-    def facts(self, config="dev"):
+    def facts(self, config=None):
+        config = config or self.config
         if config not in self._facts:
             self._facts[config] = F.load(config)
         return self._facts[config]
 
-    def fn(self, path, config="dev"):
+    def fn(self, path, config=None):
         """anchor lookup; a missing anchor fails the check closed"""
         r = self.facts(config).fns.get(path)
         if r is None:
@@ -52,7 +54,7 @@ class Ctx:
         self.analysed_fns.add(path)
         return r
 
-    def body(self, path, config="dev"):
+    def body(self, path, config=None):
         return cfg.body(self.fn(path, config))
 
     def table(self, name):
